@@ -16,6 +16,7 @@
    Not modelled: ccode.c printing, file splitting (emit.c), gcc - end-to-end runs only. *)
 Require Import NArith List.
 Require Import AV.CName.Model AV.CName.Facts AV.Gen.CNameTbl AV.CName.Current.
+Require Import AV.CSplit.Model AV.CSplit.Facts AV.Gen.CSplitOps AV.CSplit.Current.
 Import ListNotations.
 Local Open Scope N_scope.
 
@@ -106,3 +107,50 @@ Theorem module_init_names_distinct_refuted :
   mangle idlen_default idhash_default init_tag 0 unit_one = mangle idlen_default idhash_default init_tag 0 unit_two.
 Proof. exact Current.module_init_names_distinct_refuted. Qed.
 Print Assumptions module_init_names_distinct_refuted.
+
+(* ------------------------------------------------------------------ file splitting (-Csmax)
+   Model of gc0ExternDecls' piece loop, gc0OverSMax and emitTheC's reading of the list (CSplit/Model.v),
+   over the comparison operators read from the current genc.c / emit.c (Gen/CSplitOps.v); for ALL lists of
+   top-level definitions whose definition 0 is the initialisation Prog (`init_first`, which the C relies
+   on: nDefs >= 1) and ALL limits.  Not modelled: what is printed into each part (declarations, extern
+   versus static, the INIT functions' bodies) - end-to-end only. *)
+
+(* every definition lands in exactly one part, in the original order: the pieces in order, then the
+   last part (definition 0 at its head), enumerate 0 .. D-1 *)
+Theorem split_partition_order : forall smax ds, init_first ds ->
+  let s := csplit smax ds in
+  concat (l_pieces s) ++ l_rest s ++ l_glo s = tl (indexed ds) /\
+  0%nat :: map fst (concat (l_pieces s) ++ l_rest s ++ l_glo s) = seq 0 (List.length ds).
+Proof. exact Current.split_partition_order. Qed.
+Print Assumptions split_partition_order.
+
+(* the three notions of `is split` agree: no piece <-> gc0OverSMax() false <-> emitTheC writes one file;
+   when split the header is the first list element and the only thing written to <unit>.h; when not
+   split the single part carries the header *)
+Theorem split_notions_agree : forall smax ds,
+  let s := csplit smax ds in
+  (l_pieces s = [] <-> l_over s = false) /\
+  emit_is_split split_ops (l_elems s) = l_over s /\
+  (l_over s = true -> exists rest, cemit (l_elems s) = (HFile, Header) :: rest /\ forall e, In (HFile, e) rest -> False) /\
+  (l_over s = false -> exists defs, cemit (l_elems s) = [(CFile 0, Main true defs)]).
+Proof. exact Current.split_notions_agree. Qed.
+Print Assumptions split_notions_agree.
+
+(* split exactly when the guessed statement count exceeds a positive limit *)
+Theorem over_smax_meaning : forall smax ds,
+  l_over (csplit smax ds) = true <-> 0 < smax /\ smax < n_stmts ds.
+Proof. exact Current.over_smax_meaning. Qed.
+Print Assumptions over_smax_meaning.
+
+(* the limit as the code intends it: within a piece everything before its last definition costs less
+   than smax (a piece may overshoot by its last definition only; the last part is not limited) *)
+Theorem split_respects_limit : forall smax ds p, In p (l_pieces (csplit smax ds)) ->
+  forall q x t, p = q ++ x :: t -> sum_cost q < smax.
+Proof. exact Current.split_respects_limit. Qed.
+Print Assumptions split_respects_limit.
+
+(* number of pieces before the last part: ceil(nStmts / smax) - 1 *)
+Theorem split_piece_count : forall smax ds, 0 < smax ->
+  List.length (l_pieces (csplit smax ds)) = N.to_nat ((n_stmts ds - 1) / smax).
+Proof. exact Current.split_piece_count. Qed.
+Print Assumptions split_piece_count.
